@@ -23,7 +23,9 @@ THEOREMS = [
     "C01_generated_Provides_eq_model", "C01_generated_directlyProvidedBy_eq_model",
     "C01_generated_directlyProvides_eq_model", "C01_generated_alsoProvides_eq_model",
     "C01_generated_noLongerProvides_eq_model", "C01_generated_step_eq_model",
-    "C01_generated_cache_keys_unique",
+    "C01_generated_cache_keys_unique", "C01_lazy_answers_eq_eager",
+    "C01_lazy_provided_within_ledger", "C01_lazy_invariant",
+    "C01_generated_implementedBy_eq_model",
 ]
 DECL_PY = os.path.join(C.REPO, "src", "zope", "interface", "declarations.py")
 GEN = os.path.join(C.COQ, "Gen", "DeclKernel.v")
@@ -64,6 +66,7 @@ ASSUMPTIONS = ["declaration arguments are interfaces (not Declarations/Implement
                "metaclasses do not change their declarations during a history; no super() objects, no old-style "
                "__implemented__, no builtin types"]
 
+BUILTIN_POOL = [int, str, float, list, dict, set, bytes, tuple, frozenset, complex, bytearray]  # = the driver's
 CLASS_OPS = ["Implementer", "ImplementerOnly", "ClassImplements", "ClassImplementsOnly", "ClassImplementsFirst"]
 OBJ_OPS = ["DirectlyProvides", "AlsoProvides", "NoLongerProvides", "Provider"]
 
@@ -93,6 +96,9 @@ class _Sim:
             self.metas.append({"bases": bases, "l": l, "call": bool(l) or rng.random() < 0.5})
             self.pym.append(type("M", tuple(self.pym[b] for b in bases) or (type,), {}))
         self.cmeta = []     # effective metaclass id of each class (None = type)
+        self.cbuiltin = []  # pool index of a built-in type used as a class, else None
+        self.own = set()    # targets that certainly have their own __provides__ (("i", n) / ("c", n))
+        self.pool_used = set()
         self.cbases = []
         self.pyc = []
         self.asked = []
@@ -151,17 +157,45 @@ class _Sim:
 
     # -- ops
     def mdirect(self, m):
-        """interfaces named directly by implementedBy(metaclass m) (own, then inherited)"""
+        """interfaces() of implementedBy(metaclass m): what implementer(*l)(M) kept of l (it elides
+        what the metaclasses above already imply), then what those name"""
         if m is None:
             return None
-        out = list(self.metas[m]["l"])
+        inherited = []
         for b in self.metas[m]["bases"]:
-            out += self.mdirect(b)
-        return out
+            for i in self.mdirect(b):
+                if i not in inherited:
+                    inherited.append(i)
+        implied = set()
+        for i in inherited:
+            implied |= self.up[i]
+        own = []
+        if self.metas[m].get("call", True):
+            for i in self.metas[m]["l"]:
+                if i not in implied and i not in own:
+                    own.append(i)
+        return own + inherited
+
+    def new_builtin(self):
+        rng = self.rng
+        free = [k for k in range(len(BUILTIN_POOL)) if k not in self.pool_used]
+        k = rng.choice(free)
+        self.pool_used.add(k)
+        self.pyc.append(BUILTIN_POOL[k])
+        self.cmeta.append(None)
+        self.cbuiltin.append(k)
+        self.cbases.append([])
+        self.asked.append([])
+        self.inherit.append(True)
+        self.ops.append({"op": "NewClass", "bases": [], "m": None, "md": None, "bi": k})
+        self.tags.add("builtin-type")
+        return len(self.cbases) - 1
 
     def new_class(self, bases=None):
         rng = self.rng
         n = len(self.cbases)
+        if bases is None and n < 5 and rng.random() < 0.12 and len(self.pool_used) < 3:
+            return self.new_builtin()
         for _ in range(8):
             if bases is None:
                 k = rng.choice([0, 1, 1, 2, 2, 3]) if n else 0
@@ -181,6 +215,7 @@ class _Sim:
         self.pyc.append(k)
         em = self.pym.index(type(k)) if type(k) in self.pym else None
         self.cmeta.append(em)
+        self.cbuiltin.append(None)
         self.cbases.append(bs)
         self.asked.append([])
         self.inherit.append(True)
@@ -204,28 +239,59 @@ class _Sim:
         self.ops.append({"op": "DropInstance", "o": o})
         self.tags.add("drop")
 
+    def decorate(self, l, only=False):
+        """mix declaration OBJECTS into an argument list and choose a nesting for the driver:
+        directlyProvidedBy(t) of any live target; providedBy(t) of a target that has its own
+        __provides__ (otherwise providedBy returns the live Implements of its class, which is
+        outside the model); the *only* forms do not normalise their arguments: flat, no Provides"""
+        rng = self.rng
+        l = list(l)
+        targets = [("i", o) for o in self.live_insts()] + [("c", c) for c in range(len(self.cbases))]
+        if targets and rng.random() < 0.22:
+            l.insert(rng.randrange(len(l) + 1), {"dpb": list(rng.choice(targets))})
+            self.tags.add("arg-directlyProvidedBy")
+        own = sorted(t for t in self.own if t[0] == "c" or self.live[t[1]])
+        if own and not only and rng.random() < 0.15:
+            l.insert(rng.randrange(len(l) + 1), {"prov": list(rng.choice(own))})
+            self.tags.add("arg-providedBy-object")
+        nest = None
+        if l and not only and rng.random() < 0.25:
+            nest, left = [], len(l)
+            while left > 0:
+                n = rng.randint(1, left)
+                nest.append(n if rng.random() < 0.7 else -n)
+                left -= n
+            self.tags.add("nested-args")
+        return l, nest
+
     def class_op(self, kind, c, l):
         if kind == "ClassImplementsFirst":
             x = l[0] if l else self.rng.randrange(len(self.ifaces))
             self.ops.append({"op": kind, "c": c, "x": x})
             self.asked[c] = self.asked[c] + [x]
         else:
-            self.ops.append({"op": kind, "c": c, "l": l})
+            ints = list(l)
+            l, nest = self.decorate(l, only=kind.endswith("Only"))
+            self.ops.append({"op": kind, "c": c, "l": l, "nest": nest})
             if kind.endswith("Only"):
-                self.asked[c] = list(l)
+                self.asked[c] = ints
                 self.inherit[c] = False
                 self.tags.add("only")
             else:
-                self.asked[c] = self.asked[c] + list(l)
+                self.asked[c] = self.asked[c] + ints
         self.tags.add("class-decl")
 
-    def obj_op(self, kind, t, l):
+    def obj_op(self, kind, t, l, plain=False):
         if kind == "NoLongerProvides":
             x = l[0] if l else self.rng.randrange(len(self.ifaces))
             self.ops.append({"op": kind, "t": list(t), "x": x})
             self.tags.add("nolonger")
         else:
-            self.ops.append({"op": kind, "t": list(t), "l": l})
+            l, nest = (list(l), None) if plain else self.decorate(l)
+            self.ops.append({"op": kind, "t": list(t), "l": l, "nest": nest})
+        cls = self.inst[t[1]] if t[0] == "i" else t[1]
+        if self.cbuiltin[cls] is None:
+            self.own.add(tuple(t))
         self.tags.add("inst-decl" if t[0] == "i" else "classobj-decl")
 
     def random_op(self, protect=()):
@@ -324,7 +390,7 @@ class _Sim:
             if len(self.inst) >= 6:
                 return
             a = self.new_instance(c)
-        self.obj_op(rng.choice(["DirectlyProvides", "DirectlyProvides", "Provider"]), ("i", a), args)
+        self.obj_op(rng.choice(["DirectlyProvides", "DirectlyProvides", "Provider"]), ("i", a), args, plain=True)
         filler(protect=(a,))
         if variant == "narrow":
             others = [x for x in range(ni) if i not in self.up[x]]
@@ -346,7 +412,7 @@ class _Sim:
         else:
             return
         self.obj_op(rng.choice(["DirectlyProvides", "AlsoProvides"]) if b == len(self.inst) - 1 else "DirectlyProvides",
-                    ("i", b), args)
+                    ("i", b), args, plain=True)
         self.tags.add("stale-shape-" + variant)
         if variant == "widen" and rng.random() < 0.7:
             filler(protect=(a, b))
@@ -372,11 +438,25 @@ def _gen_case(rng, tier):
     while len(sim.ops) < nops:
         sim.random_op()
     ops = sim.ops[:30]
-    allq = rng.random() < 0.5
+    allq = rng.random() < 0.4
+    ncls = ninst = 0
     for k, o in enumerate(ops):
-        o["q"] = bool(allq or k == len(ops) - 1 or rng.random() < 0.45)
+        if o["op"] == "NewClass":
+            ncls += 1
+        if o["op"] == "NewInstance":
+            ninst += 1
+        last = k == len(ops) - 1
+        if allq or last:
+            o["q"] = True
+        elif rng.random() < 0.5:
+            # a subset: which first queries happen when is part of the history
+            o["q"] = {"i": [x for x in range(ninst) if rng.random() < 0.4],
+                      "c": [x for x in range(ncls) if rng.random() < 0.3]}
+        else:
+            o["q"] = False
         # the class objects alone, before anything at this step computes implementedBy(cls)
-        o["qp"] = bool(rng.random() < 0.6)
+        r = rng.random()
+        o["qp"] = True if r < 0.4 else ([x for x in range(ncls) if rng.random() < 0.5] if r < 0.65 else False)
     if not allq:
         sim.tags.add("sparse-queries")
     return {"ifaces": sim.ifaces, "metas": sim.metas, "ops": ops, "tags": sorted(sim.tags)}
@@ -408,11 +488,24 @@ def _t(t):
     return "(TInst %d)" % t[1] if t[0] == "i" else "(TCls %d)" % t[1]
 
 
+def _args(l):
+    out = []
+    for a in l:
+        if isinstance(a, int):
+            out.append("AI %d" % a)
+        elif "dpb" in a:
+            out.append("ADirectlyProvidedBy %s" % _t(a["dpb"]))
+        else:
+            out.append("AProvidedBy %s" % _t(a["prov"]))
+    return C.clist(out)
+
+
 def _op(o):
     k = o["op"]
     if k == "NewClass":
         md = o.get("md")
-        return "(NewClass %s %s)" % (_l(o["bases"]), "None" if md is None else "(Some %s)" % _l(md))
+        return "(NewClass %s %s %s)" % (_l(o["bases"]), "None" if md is None else "(Some %s)" % _l(md),
+                                        C.cbool(o.get("bi") is not None))
     if k == "NewInstance":
         return "(NewInstance %d)" % o["c"]
     if k == "DropInstance":
@@ -420,10 +513,10 @@ def _op(o):
     if k == "ClassImplementsFirst":
         return "(ClassImplementsFirst %d %d)" % (o["c"], o["x"])
     if k in CLASS_OPS:
-        return "(%s %d %s)" % (k, o["c"], _l(o["l"]))
+        return "(%s %d %s)" % (k, o["c"], _args(o["l"]))
     if k == "NoLongerProvides":
         return "(NoLongerProvides %s %d)" % (_t(o["t"]), o["x"])
-    return "(%s %s %s)" % (k, _t(o["t"]), _l(o["l"]))
+    return "(%s %s %s)" % (k, _t(o["t"]), _args(o["l"]))
 
 
 def _q(q):
@@ -444,7 +537,7 @@ def coq_case(case, obs, mode):
     steps = obs.get("steps", [])
     ops = case["ops"]
     if len(steps) != len(ops):   # the driver lost the case: make both checks fail
-        steps = [{"exc": 2, "q": None, "cp": None} for _ in ops]
+        steps = [{"exc": 9, "q": None, "cp": None} for _ in ops]
     body = C.clist(["(%s, (%d, %s, %s))" % (_op(o), s["exc"], _q(s["q"]), _cp(s.get("cp")))
                     for o, s in zip(ops, steps)])
     g = C.clist([_l(b) for b in case["ifaces"]])
@@ -468,9 +561,31 @@ def kind(case, obs):
 
 def _py_op(o):
     k = o["op"]
-    I = lambda l: ", ".join("I%d" % i for i in l)
     T = lambda t: ("o%d" if t[0] == "i" else "C%d") % t[1]
+
+    def A(a):
+        if isinstance(a, int):
+            return "I%d" % a
+        return ("directlyProvidedBy(%s)" if "dpb" in a else "providedBy(%s)") % T(a.get("dpb") or a.get("prov"))
+
+    def I(l):
+        items = [A(a) for a in l]
+        nest = o.get("nest")
+        if nest:
+            grouped, pos = [], 0
+            for k, n in enumerate(nest):
+                chunk = items[pos:pos + abs(n)]
+                pos += abs(n)
+                if n < 0:
+                    grouped.extend(chunk)
+                else:
+                    tup = "(" + "".join(x + ", " for x in chunk) + ")"
+                    grouped.append(tup if k % 2 else "[" + tup + "]")
+            items = grouped + items[pos:]
+        return ", ".join(items)
     if k == "NewClass":
+        if o.get("bi") is not None:
+            return "C%%d = %s    # %%d" % BUILTIN_POOL[o["bi"]].__name__
         return "C%%d = %s('C%%d', (%s), {})" % ("type" if o.get("m") is None else "M%d" % o["m"],
                                                 "".join("C%d, " % b for b in o["bases"]) or "object,")
     if k == "NewInstance":
@@ -484,12 +599,12 @@ def _py_op(o):
     if k == "ClassImplementsFirst":
         return "classImplementsFirst(C%d, I%d)" % (o["c"], o["x"])
     if k in ("ClassImplements", "ClassImplementsOnly"):
-        return "%s(C%d%s)" % (k[0].lower() + k[1:], o["c"], "".join(", I%d" % i for i in o["l"]))
+        return "%s(C%d%s)" % (k[0].lower() + k[1:], o["c"], "".join(", " + x for x in [I(o["l"])] if x))
     if k == "NoLongerProvides":
         return "noLongerProvides(%s, I%d)" % (T(o["t"]), o["x"])
     if k == "Provider":
         return "provider(%s)(%s)" % (I(o["l"]), T(o["t"]))
-    return "%s(%s%s)" % (k[0].lower() + k[1:], T(o["t"]), "".join(", I%d" % i for i in o["l"]))
+    return "%s(%s%s)" % (k[0].lower() + k[1:], T(o["t"]), "".join(", " + x for x in [I(o["l"])] if x))
 
 
 def replay_text(case, obs, mode):
@@ -529,15 +644,58 @@ def finding_key(case, obs, mode):
 
 # ---------------------------------------------------------------- shrinking of a violating history
 
+def _arg_targets(x):
+    return [a.get("dpb") or a.get("prov") for a in x.get("l", []) if isinstance(a, dict)]
+
+
+def _renumber_args(x, kind, n):
+    """drop nothing, shift the references above the removed object; None if it is referenced"""
+    out = []
+    for a in x.get("l", []):
+        if isinstance(a, dict):
+            key = "dpb" if "dpb" in a else "prov"
+            t = a[key]
+            if t[0] == kind:
+                if t[1] == n:
+                    return None
+                if t[1] > n:
+                    a = {key: [kind, t[1] - 1]}
+        out.append(a)
+    return out
+
+
+def _valid(ops):
+    """providedBy(t) arguments need a t that already has its own __provides__"""
+    own = set()
+    for x in ops:
+        for a in x.get("l", []):
+            if isinstance(a, dict) and "prov" in a and tuple(a["prov"]) not in own:
+                return False
+        if x["op"] in OBJ_OPS:
+            own.add(tuple(x["t"]))
+    return True
+
+
 def _remove(ops, k):
     """history without step k; removing a creation removes everything that refers to the
     created class / instance and renumbers the rest"""
+    out = _remove0(ops, k)
+    if out is None or not _valid(out):
+        return None
+    return out
+
+
+def _remove0(ops, k):
     o = ops[k]
     rest = [dict(x) for j, x in enumerate(ops) if j != k]
     if o["op"] == "NewInstance":
         n = sum(1 for x in ops[:k] if x["op"] == "NewInstance")
         out = []
         for x in rest:
+            if "l" in x:
+                x["l"] = _renumber_args(x, "i", n)
+                if x["l"] is None:
+                    return None
             if x["op"] == "DropInstance":
                 if x["o"] == n:
                     continue
@@ -558,6 +716,10 @@ def _remove(ops, k):
             return None   # a subclass may inherit its metaclass from this class
         out = []
         for x in rest:
+            if "l" in x:
+                x["l"] = _renumber_args(x, "c", n)
+                if x["l"] is None:
+                    return None
             if x["op"] == "NewClass":
                 x["bases"] = [b - 1 if b > n else b for b in x["bases"] if b != n]
             elif x["op"] == "NewInstance":
@@ -590,7 +752,7 @@ def _violates(impl, cands, mode):
     if errors:
         return [], None
     good = [j for j in bad_spec
-            if len(obs[j].get("steps", [])) == len(cands[j]["ops"]) and all(s["exc"] != 2 for s in obs[j]["steps"])]
+            if len(obs[j].get("steps", [])) == len(cands[j]["ops"]) and all(s["exc"] != 9 for s in obs[j]["steps"])]
     return good, obs
 
 
@@ -643,7 +805,7 @@ TECHNIQUE = ("Coq proof by induction over histories of a Gallina model of declar
              "kernel functions are re-translated from the source text on every run (fail-closed ast translator) and proved "
              "equal to the model; vm_compute correspondence with both implementations and a ledger-sandwich oracle on the "
              "implementation's answers")
-LEVEL_TEXT = ("Machine-checked theorems (Properties/C01.v, 25 theorems, closed under the global context) state for every "
+LEVEL_TEXT = ("Machine-checked theorems (Properties/C01.v, 29 theorems, closed under the global context) state for every "
               "history of the nine declaration calls, class/instance creation and drops that the model's providedBy/"
               "implementedBy answers equal the ledger's lower bound and lie in the admissible sandwich, that declarations "
               "on other instances never matter (history-level non-interference, which needs the cache eviction: refuted for "
